@@ -130,7 +130,20 @@ def relation_rules_documents(case):
     return dict(case, kind='job_rules', problem=problem, matrix={'profile': 'car', 'travelTimes': [0], 'distances': [0]})
 
 
+def unassigned_writer_documents(case):
+    import datetime
+    rfc = lambda t: datetime.datetime.fromtimestamp(int(t), datetime.timezone.utc).strftime('%Y-%m-%dT%H:%M:%SZ')
+    day = 86400
+    shift = lambda a, b: {'start': {'earliest': rfc(a), 'location': {'index': 0}}, 'end': {'latest': rfc(b), 'location': {'index': 0}}}
+    vt = lambda tid, vid, shifts: {'typeId': tid, 'vehicleIds': [vid], 'profile': {'matrix': 'car'}, 'costs': {'fixed': 1.0, 'distance': 1.0, 'time': 1.0}, 'shifts': shifts, 'capacity': [10]}
+    vehicles = [vt('typeA', 'v1', [shift(0, 10 * day)]), vt('typeB', 'v2', [shift(0, 10 * day), shift(15 * day, 25 * day)])]
+    jobs = [{'id': f'job{i}', 'deliveries': [{'places': [{'location': {'index': 0}, 'duration': 0.0}], 'demand': [1]}]} for i in range(len(case['entries']))]
+    return dict(case, problem={'plan': {'jobs': jobs}, 'fleet': {'vehicles': vehicles, 'profiles': [{'name': 'car'}]}}, matrix={'profile': 'car', 'travelTimes': [0], 'distances': [0]})
+
+
 def run_native(case, profile='dev'):
+    if case.get('kind') == 'unassigned_writer' and 'problem' not in case:
+        case = unassigned_writer_documents(case)
     if case.get('kind') == 'relation_rules':
         case = relation_rules_documents(case)
     if case.get('kind') == 'checker_assignment':
@@ -993,6 +1006,24 @@ def evaluate(case, native):
         if left:
             return True, f'core point(s) {left} are in no cluster (clusters {clusters}, neighbourhoods {nb}, min_points {mp})'
         return False, 'clusters satisfy the DBSCAN contract'
+    if kind == 'unassigned_writer':
+        written = native['unassigned'] or []
+        customers = [(i, e) for i, e in enumerate(case['entries']) if not e['bound']]
+        if [w['jobId'] for w in written] != [f'job{i}' for i, _ in customers]:
+            return True, f'unassigned entries {case["entries"]}: written job ids {[w["jobId"] for w in written]}, expected {[f"job{i}" for i, _ in customers]} (each customer job once)'
+        vehicles = [('v1', 0), ('v2', 1)]
+        for w, (i, e) in zip(written, customers):
+            reasons = w.get('reasons') or []
+            if not reasons:
+                return True, f'job{i} ({e}) is written as unassigned without a reason'
+            if e['info'].startswith('detailed') and e['codes']:
+                want = sorted(sorted(vehicles[k] for k, c in enumerate(e['codes']) if c == code) for code in set(e['codes']))
+                got = sorted(sorted((d['vehicleId'], d['shiftIndex']) for d in (r.get('details') or [])) for r in reasons)
+                if got != want:
+                    return True, f'job{i} ({e}): vehicles per reason {got}, expected {want}'
+            elif len(reasons) != 1:
+                return True, f'job{i} ({e}): {len(reasons)} reasons written, expected one'
+        return False, 'every unassigned customer job is written once with its reasons'
     if kind == 'insertion_step':
         nt, a, legs = case['tasks'], case['actor'], case['legs']
         jn = ['J'] if nt == 1 else [f'J{i}' for i in range(nt)]
